@@ -20,8 +20,10 @@ RULE = ("triple drawn from: CIDAR entry/cassette/device vectors, EcoFlex cassett
         "backbone drawn, group 1/3 forced to the chain's end overhangs, stray sites of "
         "both enzymes removed from free letters); inserts = chain of 1-4 modules of the "
         "kit's module class (YTK: one YTKProduct instance), targets >= 2 nt, no site of "
-        "either enzyme; all at drawn rotations. Cases whose expected product (closed "
-        "form) does not contain exactly two next-level sites are counted and skipped. "
+        "either enzyme (YTK: the product's sticky ends are read off an instance of "
+        "YTKProduct's structure); all at drawn rotations. Cases whose expected product "
+        "(closed form) contains MORE than two next-level sites (one arisen at a "
+        "junction) are counted and skipped. "
         "Oracle: assemble succeeds and equals the closed form; Next(product >> k) is "
         "valid for drawn k; its overhangs are the texts at the two next-level cut "
         "events of the product (forward site -> start, reverse site -> end); its "
@@ -62,9 +64,18 @@ def build_level(spec):
     g2 = dna.geometry(NC.cutter)
     lv = Level()
     lv.VC, lv.MC, lv.NC, lv.g1, lv.g2 = VC, MC, NC, g1, g2
-    chain = spec["chain"]
+    chain = list(spec["chain"])
     L = len(chain) - 1
     v = spec["vector"]
+    ytk_inst = None
+    if mname == "ytk.YTKProduct":
+        # the product's sticky ends are whatever its class's structure makes
+        # them (not assumed): instantiate first, then read the chain off it
+        m = spec["modules"][0]
+        w, gr = kits.struct_word(MC.structure(), m["filler"], m["stars"], m["b"], [g1, g2])
+        ytk_inst = (w, gr)
+        chain = [w[gr[0][0]:gr[0][1]], w[gr[2][0]:gr[2][1]]]
+        L = 1
     word, groups = kits.struct_word(VC.structure(), v["filler"], v["stars"], v["b"], [g1, g2],
                                     force={1: chain[0], 3: chain[L]})
     n = len(word)
@@ -78,8 +89,7 @@ def build_level(spec):
     frags = []
     for i, m in enumerate(spec["modules"]):
         if mname == "ytk.YTKProduct":
-            w, gr = kits.struct_word(MC.structure(), m["filler"], m["stars"], m["b"], [g1, g2],
-                                     force={1: chain[i]})
+            w, gr = ytk_inst
             (b1, f1), (b2, f2), (b3, f3) = gr
             frag = w[b1:f2]
             seq = dna.rot(w, m.get("rot", 0) % len(w))
@@ -127,8 +137,9 @@ def check(spec, ctx):
     from moclo import errors
     lv = build_level(spec)
     tname = TRIPLES[spec["triple"]][0].split(".")[1]
-    if dna.count_sites(lv.expected, lv.g2) != 2:
-        ctx.event("skipped:next-level-sites!=2")
+    if dna.count_sites(lv.expected, lv.g2) > 2:
+        # an extra next-level site (arisen at a junction): outside the statement
+        ctx.event("skipped:extra-next-level-site")
         ctx.note(spec, False, ["skipped"])
         return
     product = first_level(spec, lv)
@@ -140,9 +151,14 @@ def check(spec, ctx):
     fwd = [a for a, s in events if s == 1]
     rev = [a for a, s in events if s == -1]
     if len(fwd) != 1 or len(rev) != 1:
-        ctx.event("skipped:next-level-sites-same-strand")
-        ctx.note(spec, False, ["skipped"])
-        return
+        # the design must provide one forward and one reverse next-level site
+        r0 = lv.NC(product)
+        if not sut(r0.is_valid):
+            raise Violation("NEXT-LEVEL-REJECTS", "%s: %s rejects the product: it carries %d forward and "
+                            "%d reverse %s sites instead of the two the design provides"
+                            % (tname, lv.NC.__name__, len(fwd), len(rev), lv.g2.name))
+        raise Violation("NEXT-LEVEL-OVERHANGS", "%s: product accepted although it carries %d forward and "
+                        "%d reverse %s sites" % (tname, len(fwd), len(rev), lv.g2.name))
     a1, a2 = fwd[0], rev[0]
     k2 = lv.g2.k
     want_start, want_end = dna.circ_slice(P, a1, k2), dna.circ_slice(P, a2, k2)
